@@ -204,8 +204,24 @@ func fromEntry(ctx context.Context, services coreiface.CoreAPI, sourceEntries []
 		sliced = uniques
 	}
 
+	// Make room for the source entries that were cut off by dropping as many of
+	// the oldest entries that are not source entries themselves
 	missingSourceEntries := entry.Difference(sliced, sourceEntries)
-	result := append(missingSourceEntries, entrySliceRange(sliced, len(missingSourceEntries), len(sliced))...)
+	isSourceEntry := map[string]struct{}{}
+	for _, e := range sourceEntries {
+		isSourceEntry[e.GetHash().String()] = struct{}{}
+	}
+
+	result := missingSourceEntries
+	toDrop := len(missingSourceEntries)
+	for _, e := range sliced {
+		if _, ok := isSourceEntry[e.GetHash().String()]; !ok && toDrop > 0 {
+			toDrop--
+			continue
+		}
+
+		result = append(result, e)
+	}
 
 	return &Snapshot{
 		ID:     result[len(result)-1].GetLogID(),
